@@ -371,8 +371,8 @@ def run_check(mod, prop, seed, args, t0):
                 break
             if time.time() - t0 > budget:
                 break
-            if len([1 for _ in agg.violations]) > 200:
-                break
+            if sum(1 for _r, v in agg.violations if core.match_known(prop, v, known) is None) > 200:
+                break  # enough unknown violations to report; known findings do not stop the search
     t_main = time.time() - t0
 
     # ---- determinism / hash-seed cross-checks on a sample of runs (fresh interpreters)
